@@ -499,7 +499,7 @@ func (e *exec) operand(s *step, o *memOp) (uint64, uint64) {
 func (e *exec) access(s *step) error {
 	o := opByName[s.Op]
 	m := e.m
-	e.out.Progress = s.ID
+	e.out.Progress++ // the generated code counts started accesses in the progress global
 	base := e.varVal(s.Var)
 	d := dynAccess{ID: s.ID, Op: o.Name, Class: o.Class, VarKind: e.t.Vars[s.Var].describe(), Base: base, Off: s.Off,
 		Size: m.size(), Since: e.useVar(s.Var), Grows: e.out.Grows}
